@@ -75,7 +75,7 @@ impl C11 {
     }
 
     fn case(&self, k: u64, rng: &mut Rng, col: &mut Collector) {
-        let opts = ProgOpts { fault_tail: true, ..Default::default() };
+        let opts = ProgOpts { fault_tail: true, unbalanced_ret: true, ..Default::default() };
         let prog = proggen::gen_prog(rng, &opts);
         // reference run without limit / hooks to learn the length
         let base_cfg = Config { limit: None, stop: None, with_stack: rng.below(6) != 0 };
